@@ -30,60 +30,76 @@ def main():
     if k:
         keep.append([bytearray(40) for _ in range(k)])
         keep.append([object() for _ in range(k * 3)])
-        unrelated = 'int unrelated_%d(int a, int b) { int i; int s = 0; for (i = 0; i < a; i++) { s += b * i; } return s; }' % k
-        keep.append(api.cc(io.StringIO(unrelated), 'msp430' if k % 2 else 'or1k', opt_level=k % 3))
-    out = {}
-    for j in job.get('jobs', []):
+        unrelated = ('char *ustr_%d = "unrelated"; int unrelated_%d(int a, int b) { int i; int s = 0; '
+                     'for (i = 0; i < a; i++) { s += b * i * 305419896 + 19088743; } if (s > 77777777) { s = s - 1000000; } '
+                     'return s ^ 123456789; }' % (k, k))
+        for um in ('arm', 'x86_64'):
+            try:
+                keep.append(api.cc(io.StringIO(unrelated), um, opt_level=0))
+            except Exception:   # noqa: BLE001
+                pass
         try:
-            be = j.get('backend')
-            if be in ('wasm', 'python', 'irtext'):
-                # other outputs of the same pipeline: wasm binary, generated python text, optimized IR text
-                m = api.c_to_ir(io.StringIO(j['src']), j['march'])
-                api.optimize(m, level=j['opt'])
-                if be == 'wasm':
-                    from ppci.wasm import ir_to_wasm
-                    text = ir_to_wasm(m).to_bytes().hex()
-                elif be == 'python':
-                    f = io.StringIO()
-                    api.ir_to_python([m], f)
-                    # the first line is a wall-clock stamp ("# Automatically generated on <ctime>"): deliberate,
-                    # not a function of hash seed / process / history, so it is excluded from the comparison
-                    text = '\n'.join(l for l in f.getvalue().split('\n')
-                                     if not l.startswith('# Automatically generated on '))
-                else:
-                    from ppci import irutils
-                    f = io.StringIO()
-                    irutils.Writer(f).write(m)
-                    text = f.getvalue()
-                out[j['id']] = {'sha': hashlib.sha256(text.encode()).hexdigest(), 'n': len(text)}
-                if job.get('dump') == j['id']:
-                    out[j['id']]['text'] = text
-                continue
-            if be == 'burg':
-                import os
-                import tempfile
-                from ppci.codegen import burg
-                fd, tmp = tempfile.mkstemp(suffix='.py')
-                os.close(fd)
-                args = burg.make_argument_parser().parse_args([j['src'], '-o', tmp])
-                burg.main(args)
-                args.output.close()
-                text = open(tmp).read()
-                os.unlink(tmp)
-                out[j['id']] = {'sha': hashlib.sha256(text.encode()).hexdigest(), 'n': len(text)}
-                if job.get('dump') == j['id']:
-                    out[j['id']]['text'] = text
-                continue
-            if j['lang'] == 'c':
-                obj = api.cc(io.StringIO(j['src']), j['march'], opt_level=j['opt'], debug=j.get('debug', False))
-            else:
-                obj = api.c3c(list(j['src']), [], j['march'], opt_level=j['opt'], debug=j.get('debug', False))
-            text = json.dumps(serialize(obj), sort_keys=True, indent=1)
-            out[j['id']] = {'sha': hashlib.sha256(text.encode()).hexdigest(), 'n': len(text)}
-            if job.get('dump') == j['id']:
-                out[j['id']]['text'] = text
-        except Exception as ex:   # noqa: BLE001
-            out[j['id']] = {'error': '%s: %s' % (type(ex).__name__, str(ex)[:200])}
+            keep.append(api.cc(io.StringIO(unrelated), 'msp430' if k % 2 else 'or1k', opt_level=k % 3))
+        except Exception:   # noqa: BLE001
+            pass
+    out = {}
+    def run_jobs(joblist, sfx):
+      for j in joblist:
+          try:
+              be = j.get('backend')
+              if be in ('wasm', 'python', 'irtext'):
+                  # other outputs of the same pipeline: wasm binary, generated python text, optimized IR text
+                  m = api.c_to_ir(io.StringIO(j['src']), j['march'])
+                  api.optimize(m, level=j['opt'])
+                  if be == 'wasm':
+                      from ppci.wasm import ir_to_wasm
+                      text = ir_to_wasm(m).to_bytes().hex()
+                  elif be == 'python':
+                      f = io.StringIO()
+                      api.ir_to_python([m], f)
+                      # the first line is a wall-clock stamp ("# Automatically generated on <ctime>"): deliberate,
+                      # not a function of hash seed / process / history, so it is excluded from the comparison
+                      text = '\n'.join(l for l in f.getvalue().split('\n')
+                                       if not l.startswith('# Automatically generated on '))
+                  else:
+                      from ppci import irutils
+                      f = io.StringIO()
+                      irutils.Writer(f).write(m)
+                      text = f.getvalue()
+                  out[j['id'] + sfx] = {'sha': hashlib.sha256(text.encode()).hexdigest(), 'n': len(text)}
+                  if job.get('dump') == j['id']:
+                      out[j['id'] + sfx]['text'] = text
+                  continue
+              if be == 'burg':
+                  import os
+                  import tempfile
+                  from ppci.codegen import burg
+                  fd, tmp = tempfile.mkstemp(suffix='.py')
+                  os.close(fd)
+                  args = burg.make_argument_parser().parse_args([j['src'], '-o', tmp])
+                  burg.main(args)
+                  args.output.close()
+                  text = open(tmp).read()
+                  os.unlink(tmp)
+                  out[j['id'] + sfx] = {'sha': hashlib.sha256(text.encode()).hexdigest(), 'n': len(text)}
+                  if job.get('dump') == j['id']:
+                      out[j['id'] + sfx]['text'] = text
+                  continue
+              if j['lang'] == 'c':
+                  obj = api.cc(io.StringIO(j['src']), j['march'], opt_level=j['opt'], debug=j.get('debug', False))
+              else:
+                  obj = api.c3c(list(j['src']), [], j['march'], opt_level=j['opt'], debug=j.get('debug', False))
+              text = json.dumps(serialize(obj), sort_keys=True, indent=1)
+              out[j['id'] + sfx] = {'sha': hashlib.sha256(text.encode()).hexdigest(), 'n': len(text)}
+              if job.get('dump') == j['id']:
+                  out[j['id'] + sfx]['text'] = text
+          except Exception as ex:   # noqa: BLE001
+              out[j['id'] + sfx] = {'error': '%s: %s' % (type(ex).__name__, str(ex)[:200])}
+    run_jobs(job.get('jobs', []), '')
+    if job.get('second_pass'):
+        # process history: build every input a second time in this process, in the opposite order
+        # (second build of the same input; inputs in swapped order); '#2' results must equal the first ones
+        run_jobs(list(reversed(job.get('jobs', []))), '#2')
     for j in job.get('ir', []):
         try:
             from ppci import irutils
